@@ -103,4 +103,72 @@ pub(crate) mod vk {
         };
     }
     pub(crate) use vk_dispatch;
+
+    // closed instances (C18 (b)) and one-edit neighbours for a name table type; used as
+    // `vk_ground_names!(ElementName);` in the harness file attached to the type's module
+    macro_rules! vk_ground_names {
+        ($ty:ident) => {
+            #[cfg(not(kani))]
+            pub fn ground(which: &str) -> Option<vk::std::string::String> {
+                const NAME: &str = stringify!($ty);
+                use vk::std::string::{String, ToString};
+                use vk::std::format;
+                use core::str::FromStr;
+                if which == "names" {
+                    let mut n = 0u64;
+                    for (i, s) in $ty::STRING_TABLE.iter().enumerate() {
+                        match $ty::from_bytes(s.as_bytes()) {
+                            Ok(item) => {
+                                if item as usize != i { return Some(format!("FAIL {}::from_bytes({:?}) returned item {} instead of {}", NAME, s, item as usize, i)); }
+                                if item.to_str() != *s { return Some(format!("FAIL {} to_str of item {} is {:?}, table has {:?}", NAME, i, item.to_str(), s)); }
+                                if item.to_string() != *s { return Some(format!("FAIL {} Display of item {} differs from {:?}", NAME, i, s)); }
+                                match $ty::from_str(s) { Ok(j) if j == item => {}, _ => return Some(format!("FAIL {}::from_str({:?}) differs from from_bytes", NAME, s)) }
+                            }
+                            Err(_) => return Some(format!("FAIL {}::from_bytes({:?}) (member {}) fails", NAME, s, i)),
+                        }
+                        n += 4;
+                    }
+                    return Some(format!("OK {}", n));
+                }
+                if which == "neighbours" {
+                    // bounded cross-check of (a): one-edit neighbours of every member must fail unless they are members
+                    let mut n = 0u64;
+                    let table: vk::std::collections::HashSet<&[u8]> = $ty::STRING_TABLE.iter().map(|s| s.as_bytes()).collect();
+                    let mut probe = |cand: &[u8]| -> Option<String> {
+                        n += 1;
+                        match $ty::from_bytes(cand) {
+                            Ok(item) => {
+                                if !table.contains(cand) { return Some(format!("FAIL {}::from_bytes accepts non-member {:?} as item {}", NAME, String::from_utf8_lossy(cand), item as usize)); }
+                                if item.to_str().as_bytes() != cand { return Some(format!("FAIL {}::from_bytes({:?}) returned item with text {:?}", NAME, String::from_utf8_lossy(cand), item.to_str())); }
+                                None
+                            }
+                            Err(_) => if table.contains(cand) { Some(format!("FAIL {}::from_bytes rejects member {:?}", NAME, String::from_utf8_lossy(cand))) } else { None },
+                        }
+                    };
+                    if let Some(f) = probe(b"") { return Some(f); }
+                    if let Some(f) = probe(&[0xff, 0xfe, 0x80]) { return Some(f); }
+                    if let Some(f) = probe(&[b'A'; 300]) { return Some(f); }
+                    for s in $ty::STRING_TABLE.iter() {
+                        let b = s.as_bytes();
+                        for k in 0..b.len() {
+                            let mut c = b.to_vec();
+                            c[k] = if c[k].is_ascii_uppercase() { c[k].to_ascii_lowercase() } else if c[k].is_ascii_lowercase() { c[k].to_ascii_uppercase() } else if c[k] == b'-' { b'_' } else if c[k] == b'_' { b'-' } else { c[k] ^ 1 };
+                            if let Some(f) = probe(&c) { return Some(f); }
+                            let mut d = b.to_vec(); d.remove(k);
+                            if let Some(f) = probe(&d) { return Some(f); }
+                        }
+                        for extra in [b'S', b'-', b' ', 0u8, b'a'] {
+                            let mut c = b.to_vec(); c.push(extra);
+                            if let Some(f) = probe(&c) { return Some(f); }
+                            let mut c = vk::std::vec![extra]; c.extend_from_slice(b);
+                            if let Some(f) = probe(&c) { return Some(f); }
+                        }
+                    }
+                    return Some(format!("OK {}", n));
+                }
+                None
+            }
+        };
+    }
+    pub(crate) use vk_ground_names;
 }
